@@ -57,7 +57,7 @@ def search_options(cfg):
     if cfg.get("searcher") == "bayesopt":
         so.update(GP_TINY)
         so["num_init_random"] = cfg.get("nir", 10 ** 6)
-        for k in ("opt_skip_init_length", "opt_skip_period", "model", "gp_resource_kernel", "resource_acq"):
+        for k in ("opt_skip_init_length", "opt_skip_period", "opt_warmstart", "model", "gp_resource_kernel", "resource_acq"):
             if k in cfg:
                 so[k] = cfg[k]
     return so
@@ -135,7 +135,8 @@ def build_world(cfg):
         s.set_time_keeper(env.ConstTimeKeeper())
         T = cfg["T"]
         nb = cfg.get("brackets", 1)
-        spec = dict(W=cfg["W"], T=T, R=R, table=_table(cfg, T, R), brackets=nb if nb > 1 else 0,
+        # rngb: brackets are sampled by the scheduler's own RNG (no one-hot seam) -> the bracket RNG must survive restore
+        spec = dict(W=cfg["W"], T=T, R=R, table=_table(cfg, T, R), brackets=nb if (nb > 1 and not cfg.get("rngb")) else 0,
                     max_resource_attr=mra, scratch=cfg.get("scratch", False), fail_budget=cfg.get("F", 0))
         return World(s, spec)
     if fam == "misc":
@@ -218,7 +219,13 @@ def configs(tier, seed):
             ms=500, drain=True, spines=2)
         add(fam="hbrand", searcher="random", type="promotion", dl=True, restrict=True, W=2, T=5, R=4, p2e=0, ms=500,
             spines=2)
+    add(fam="hbrand", searcher="random", type="stopping", dl=True, brackets=2, rngb=True, W=2, T=5, R=4, p2e=0,
+        ms=80 if q else 500, spines=2)
+    if not q:
+        add(fam="hbrand", searcher="random", type="promotion", dl=True, brackets=3, rngb=True, W=2, T=5, R=4, p2e=0,
+            ms=500, spines=2)
     # --- GP searchers in their random phase
+    add(fam="fifo", searcher="bayesopt", space="fin6", W=2, T=8, R=1, p2e=1, ms=50 if q else 300, drain=True, F=1)
     add(fam="fifo", searcher="bayesopt", W=2, T=5, R=2, p2e=2, ms=60 if q else 300, F=1)
     add(fam="hbgp", searcher="bayesopt", type="promotion", W=2, T=4, R=4, p2e=1, ms=60 if q else 300, spines=2, F=1)
     add(fam="hbgp", searcher="bayesopt", type="stopping", W=2, T=4, R=4, p2e=None, ms=60 if q else 300, spines=2)
@@ -239,9 +246,15 @@ def configs(tier, seed):
         add(fam="misc", kind="shb", W=2, T=6, R=4, ms=500, spines=2)
     # --- a few real-BO states (tiny optimiser settings); crash points = prefixes of spine histories only
     add(fam="fifo", searcher="bayesopt", nir=2, W=2, T=5, R=1, p2e=1, ms=0, spines=2 if q else 3, h=2, bo=True,
-        perms={"1": (2, 0, 3, 1, 4)})
-    add(fam="hbgp", searcher="bayesopt", nir=2, type="promotion", W=2, T=4, R=2, p2e=1, ms=0, spines=2,
-        h=2, bo=True, perms={"1": (1, 0, 3, 2)})
+        perms={"1": (2, 0, 3, 1, 4)}, opt_warmstart=True)
     if not q:
-        add(fam="hbgp", searcher="bayesopt", nir=2, type="stopping", W=2, T=4, R=2, p2e=0, ms=0, spines=2, h=2, bo=True)
+        add(fam="fifo", searcher="bayesopt", nir=2, W=2, T=6, R=1, p2e=0, ms=0, spines=2, h=2, bo=True,
+            perms={"1": (2, 0, 3, 1, 4, 5)}, opt_skip_init_length=1, opt_skip_period=2)
+    add(fam="hbgp", searcher="bayesopt", nir=2, type="stopping", W=2, T=5, R=2, p2e=1, ms=0, spines=2, h=2, bo=True,
+        perms={"1": (1, 0, 3, 2, 4)})
+    if not q:
+        add(fam="hbgp", searcher="bayesopt", nir=2, type="promotion", W=2, T=4, R=2, p2e=1, ms=0, spines=2, h=2, bo=True,
+            perms={"1": (1, 0, 3, 2)})
+        add(fam="hbgp", searcher="bayesopt", nir=2, type="stopping", W=3, T=5, R=3, p2e=0, ms=0, spines=3, h=2, bo=True,
+            perms={"1": (1, 0, 3, 2, 4)})
     return out
